@@ -139,6 +139,11 @@ func (db *DB) newMemTable() (*memTable, error) {
 	mt, err := db.openMemTable(db.nextMemFid, os.O_CREATE|os.O_RDWR)
 	if err == z.NewFile {
 		db.nextMemFid++
+		// Commits written to this WAL are acknowledged after an msync of the file alone, so the
+		// file's directory entry has to be durable first.
+		if err := db.syncDir(db.opt.Dir); err != nil {
+			return nil, y.Wrapf(err, "newMemTable")
+		}
 		return mt, nil
 	}
 
